@@ -352,11 +352,15 @@ class LogixDriver(CIPDriver):
             data_type=Struct(n_bytes(6), ULINT("µs")),
         )
         if tag:
-            _time = datetime.datetime(1970, 1, 1) + datetime.timedelta(microseconds=tag.value["µs"])
+            try:
+                _time = datetime.datetime(1970, 1, 1) + datetime.timedelta(microseconds=tag.value["µs"])
+                _string = _time.strftime(fmt)
+            except OverflowError:  # a clock value beyond datetime.max (year 9999): only the raw count is available
+                _time = _string = None
             value = {
                 "datetime": _time,
                 "microseconds": tag.value["µs"],
-                "string": _time.strftime(fmt),
+                "string": _string,
             }
         else:
             value = None
